@@ -190,7 +190,9 @@ class C18(HistoryProperty):
         "types installed, a profile hook that knows the code objects of every implementation of evaluate / validate / keys / explain "
         "found by reflection over labrea.* (the saved __labrea_*__ functions, or a raw method a class kept unwrapped) and of the cache "
         "backends flags any implementation entered without an in-flight request for the same object, any backend call without a cache "
-        "request, any log record without a LogRequest, and any Option evaluated without a TypeValidationRequest. Unchanged results: a "
+        "request, any log record without a LogRequest, and any Option evaluated without a TypeValidationRequest. Completeness (operations that were "
+        "skipped rather than run unrequested): a marker constant seen by a stub function must have been seen by the EvaluateRequest handler as "
+        "its Value node, and an option namespace whose evaluation completed must have issued a request per declared member. Unchanged results: a "
         "reference world runs the same history without handlers in lock-step; outcomes and body logs must be equal. Substitution: a "
         "handler returns a sentinel for one dataset D; every consumer must equal a cold twin in which D is Value(sentinel), also right "
         "after an un-substituted evaluation with the very same options object. Sampling, not proof."
